@@ -295,7 +295,9 @@ pub fn gen_case(g: &mut G, ex: &Excl) -> Case {
             body.push(')');
             macros.push(Macro { name, params: Some(params), body });
         } else {
-            let body = match g.below(4) {
+            let body = match g.below(5) {
+                // a value that itself contains `=` (what a -D option is split at)
+                4 => format!("({}=={})", g.below(4), g.below(4)),
                 0 => format!("{}", g.below(50)),
                 1 => format!("({}+{})", g.below(9), g.below(9)),
                 2 if !macros.is_empty() => format!("({}+1)", gen_use(g, &macros, 1)),
